@@ -95,6 +95,12 @@ TrBuild ==
   /\ e.op = "build" /\ Build(e.h, e.v)
   /\ Step({}, {"build"} \cup (IF WFAny({}, e.v) THEN {"wf_values"} ELSE {}), "-")
 TrSetBuf == /\ e.op = "setbuf" /\ SetBuf(e.h, e.bytes) /\ Step({}, {"setbuf"}, "-")
+\* the caller wrote into the spare capacity behind the slices of a packet it holds: the packet is still the same value
+TrScribble ==
+  /\ e.op = "scribble"
+  /\ UNCHANGED << buf, prov, memo, fromdec, provdec >>
+  /\ pk' = IF e.post.k = "SAME" THEN pk ELSE [pk EXCEPT ![e.h] = e.post]
+  /\ Step(IF e.post.k = "SAME" THEN {} ELSE { [tag |-> "C18:parts_of_a_packet_share_memory", dev |-> ""] }, {"build"}, pk[e.h].k)
 \* the caller recombines packets it holds into a new list (no library call)
 TrPick ==
   /\ e.op = "pick"
@@ -290,7 +296,7 @@ TrUnitEnc ==
 TraceNext ==
   /\ l <= Len(Trace)
   /\ \/ TrBuild \/ TrSetBuf \/ TrPick \/ TrReset \/ TrMarshal \/ TrSize \/ TrDest \/ TrHeader \/ TrString
-     \/ TrUnmarshal \/ TrUnmarshal2 \/ TrDatagram \/ TrUnitDec \/ TrUnitEnc \/ TrValidate \/ TrCname \/ TrNack \/ TrRemb \/ TrTables \/ TrLen \/ TrMarshalTo
+     \/ TrScribble \/ TrUnmarshal \/ TrUnmarshal2 \/ TrDatagram \/ TrUnitDec \/ TrUnitEnc \/ TrValidate \/ TrCname \/ TrNack \/ TrRemb \/ TrTables \/ TrLen \/ TrMarshalTo
 
 TraceSpec == TraceInit /\ [][TraceNext]_tvars
 
